@@ -154,8 +154,13 @@ class CSSCharsetRule(cssrule.CSSRule):
                 info = codecs.lookup(encoding)
             except LookupError:
                 info = None
-            if info is None or not getattr(info, '_is_text_encoding', True):
-                # (codecs like rot13 or base64 are no text encodings)
+            if (
+                info is None
+                or not getattr(info, '_is_text_encoding', True)
+                or info.name in ('css', 'undefined')
+            ):
+                # (codecs like rot13 or base64 are no text encodings, "css" is
+                # the codec which reads this rule, "undefined" always fails)
                 self._log.error(
                     'CSSCharsetRule: Unknown (Python) encoding %r.' % encoding
                 )
